@@ -74,6 +74,11 @@ func genC09(seed uint64, tier string) *plan.Plan {
 	if r.IntN(2) == 0 {
 		t1[0], t1[1] = t1[1], t1[0]
 	}
+	if r.IntN(2) == 0 {
+		// a string in front and more fields behind the element that will get an ill-typed value
+		t1 = append(append([]int64{pick(idxVarString)}, t1...), pick(idxSmall), pick(idxSmall))
+		t2 = append(append([]int64{pick(idxVarString)}, t2...), pick(idxSmall))
+	}
 	pl.Ops = append(pl.Ops, plan.Op{K: "tmpl", A: 0, N: t0}, plan.Op{K: "tmpl", A: 1, N: t1}, plan.Op{K: "tmpl", A: 2, N: t2})
 	n := 6 + r.IntN(20)
 	if tier == "thorough" {
